@@ -1,17 +1,18 @@
 #!/bin/sh
-# usage: tools/seeded.sh <Cxx> <worktree> [tier]
+# usage: tools/seeded.sh <Cxx> <worktree> [tier] [name]     (name: directory under seeded/, default <Cxx>)
 # Confirms a seeded change produced in a scratch worktree (suite passes with it, demo passes without / fails with it),
 # stores it under /verif/seeded/<id>/, runs ./check <Cxx> against it on /repo (apply, run, revert) and records the outcome.
-ID=$1; WT=$2; TIER=${3:-quick}; L=$(echo $ID | tr 'A-Z' 'a-z')
-DST=/verif/seeded/$ID; mkdir -p $DST
-DEMO=$(ls $WT/demo_*.py | head -1)
+ID=$1; WT=$2; TIER=${3:-quick}; NAME=${4:-$ID}
+DST=/verif/seeded/$NAME; mkdir -p $DST
+DEMO=$(ls $WT/demo*.py | head -1)
+[ -n "$DEMO" ] || { echo "no demo in $WT"; exit 2; }
 cp $WT/patch.diff $DST/patch.diff; cp $DEMO $DST/; cp $WT/NOTES.md $DST/NOTES.md 2>/dev/null
 cd $WT
 git diff --quiet -- statemachine && git apply $DST/patch.diff
 SUITE=$(/venv/bin/python -m pytest -q -p no:cacheprovider --timeout=900 2>&1 | tail -1); git checkout -- docs/images 2>/dev/null
-timeout 300 /venv/bin/python $(basename $DEMO) > /tmp/seeded_demo_with.log 2>&1; WITH=$?
+timeout 300 /venv/bin/python $(basename $DEMO) > /tmp/seeded_demo_with.log 2>&1 < /dev/null; WITH=$?
 git apply -R $DST/patch.diff   # (git stash is shared between worktrees: never use it here)
-timeout 300 /venv/bin/python $(basename $DEMO) > /tmp/seeded_demo_without.log 2>&1; WITHOUT=$?
+timeout 300 /venv/bin/python $(basename $DEMO) > /tmp/seeded_demo_without.log 2>&1 < /dev/null; WITHOUT=$?
 git apply $DST/patch.diff
 echo "suite with change: $SUITE"; echo "demo with change: exit $WITH; without: exit $WITHOUT"
 git -C /repo diff --quiet || { echo "/repo dirty"; exit 2; }
@@ -19,7 +20,7 @@ git -C /repo apply $DST/patch.diff || { echo "patch does not apply to /repo"; ex
 cd /verif && ./check $ID --tier $TIER > /tmp/seeded_check.log 2>&1; RC=$?
 git -C /repo checkout -- .
 NV=$(grep -c '^VIOLATION' /tmp/seeded_check.log)
-echo "check $ID $TIER on seeded change: rc=$RC violations=$NV"; grep -A6 'violating cases by feature' /tmp/seeded_check.log | cut -c1-220; grep '^  ' /tmp/seeded_check.log | grep -v ' x ' | head -2 | cut -c1-300
+echo "check $ID $TIER on seeded change ($NAME): rc=$RC violations=$NV"; grep -A6 'violating cases by feature' /tmp/seeded_check.log | cut -c1-220; grep '^  ' /tmp/seeded_check.log | grep -v ' x ' | head -2 | cut -c1-300
 python3 - <<PY
 import json
 json.dump({"property": "$ID", "suite_with_change": "$SUITE", "demo_exit_with_change": $WITH, "demo_exit_without_change": $WITHOUT,
